@@ -124,23 +124,49 @@ func (f *faultReaderAt) Read(p []byte) (int, error) {
 	panic("Read called on a ReaderAt source")
 }
 
-// faultStream delivers data[:k] and then fails (non-EOF) if k < len(data).
+// faultStream delivers data[:k] and then, if k < len(data), ends in the way `end` says:
+//
+//	""      (0, generic error) on the next call
+//	"ueof"  (0, io.ErrUnexpectedEOF) on the next call
+//	"nerr"  the last chunk together with the generic error: (n > 0, err)
+//	"nueof" the last chunk together with io.ErrUnexpectedEOF
+//	"eof"   (0, io.EOF): the stream of a file cut at k
+//	"neof"  the last chunk together with io.EOF: (n > 0, io.EOF)
+//
+// A source that has delivered all of data ends with io.EOF.
 type faultStream struct {
 	data []byte
 	k    int
+	end  string
 	pos  int
+}
+
+func (f *faultStream) endErr() error {
+	if f.k >= len(f.data) {
+		return io.EOF
+	}
+	switch f.end {
+	case "ueof", "nueof":
+		return io.ErrUnexpectedEOF
+	case "eof", "neof":
+		return io.EOF
+	}
+	return errInjected
 }
 
 func (f *faultStream) Read(p []byte) (int, error) {
 	lim := min(f.k, len(f.data))
 	if f.pos >= lim {
-		if f.k < len(f.data) {
-			return 0, errInjected
-		}
-		return 0, io.EOF
+		return 0, f.endErr()
+	}
+	if len(p) > 700 {
+		p = p[:700] // several calls
 	}
 	n := copy(p, f.data[f.pos:lim])
 	f.pos += n
+	if f.pos >= lim && strings.HasPrefix(f.end, "n") && f.k < len(f.data) {
+		return n, f.endErr()
+	}
 	return n, nil
 }
 
@@ -237,7 +263,40 @@ func getFile(fspec string) []byte {
 		return d
 	}
 	var d []byte
-	if strings.HasPrefix(fspec, "raw:") {
+	if strings.HasPrefix(fspec, "retab(") {
+		// retab(<opt>,<taghex>.<len>,...)<file spec>: the tables of that file written again through
+		// header.Write together with zero-filled tables of the given lengths (length 0: an empty
+		// table); option x drops GDEF/GSUB/GPOS so that DSIG or an unknown tag is laid out last
+		i := strings.IndexByte(fspec, ')')
+		fontMu.Unlock()
+		base := getFile(fspec[i+1:])
+		fontMu.Lock()
+		info, err := header.Read(bytes.NewReader(base))
+		if err != nil {
+			panic(err)
+		}
+		tabs := map[string][]byte{}
+		for name, rec := range info.Toc {
+			tabs[name] = append([]byte{}, base[rec.Offset:rec.Offset+rec.Length]...)
+		}
+		for _, a := range strings.Split(fspec[6:i], ",") {
+			if a == "x" {
+				delete(tabs, "GDEF")
+				delete(tabs, "GSUB")
+				delete(tabs, "GPOS")
+			} else if a != "" {
+				tag, l, _ := strings.Cut(a, ".")
+				var n int
+				fmt.Sscan(l, &n)
+				tabs[string(mustHex(tag))] = make([]byte, n)
+			}
+		}
+		var buf bytes.Buffer
+		if _, err := header.Write(&buf, info.ScalerType, tabs); err != nil {
+			panic(err)
+		}
+		d = buf.Bytes()
+	} else if strings.HasPrefix(fspec, "raw:") {
 		var ok bool
 		d, ok = goFonts[fspec[4:]]
 		if !ok {
@@ -269,7 +328,10 @@ func layoutOf(data []byte) (ents []tocEnt, scaler uint32, hdrLen, lastEnd int) {
 	}
 	for n, r := range info.Toc {
 		ents = append(ents, tocEnt{n, int(r.Offset), int(r.Length)})
-		lastEnd = max(lastEnd, int(r.Offset)+int(r.Length))
+		if r.Length > 0 {
+			// the end of the last table that carries data: an empty table has no data to cut into
+			lastEnd = max(lastEnd, int(r.Offset)+int(r.Length))
+		}
 	}
 	sort.Slice(ents, func(i, j int) bool {
 		if ents[i].off != ents[j].off {
@@ -453,6 +515,8 @@ func init() {
 		return string(out)
 	}
 
+	// per k three verdicts: bytes.Reader over data[:k]; a plain Reader ending (0, EOF) at k; a plain
+	// Reader returning its last chunk with EOF.  Demanded (E) for k before the end of the last table.
 	ops["faults.trunc"] = func(f Fields) string {
 		data := getFile(f["font"])
 		lastEnd, bad := checkFileFields(f, data)
@@ -462,15 +526,21 @@ func init() {
 		var sb strings.Builder
 		for _, k := range parseKs(f) {
 			if k >= lastEnd {
-				sb.WriteString("--")
+				sb.WriteString("---")
 				continue
 			}
 			sb.WriteByte(readVerdict(bytes.NewReader(data[:k])))
-			sb.WriteByte(readVerdict(onlyReader{bytes.NewReader(data[:k])}))
+			sb.WriteByte(readVerdict(&faultStream{data: data, k: k, end: "eof"}))
+			sb.WriteByte(readVerdict(&faultStream{data: data, k: k, end: "neof"}))
 		}
 		return sb.String()
 	}
 
+	// per k five verdicts: a ReaderAt failing for accesses touching offsets >= k, and plain Readers
+	// failing after k bytes with a generic error, io.ErrUnexpectedEOF, and each of the two
+	// delivered together with the last chunk.  The ReaderAt is demanded to be rejected for k before
+	// the end of the last table (later offsets are never accessed); the streams for every k < len:
+	// the whole stream is read, so a non-EOF error before its end is a failure at a needed offset.
 	ops["faults.reader"] = func(f Fields) string {
 		data := getFile(f["font"])
 		lastEnd, bad := checkFileFields(f, data)
@@ -479,12 +549,18 @@ func init() {
 		}
 		var sb strings.Builder
 		for _, k := range parseKs(f) {
-			if k >= lastEnd {
-				sb.WriteString("--")
+			if k >= len(data) {
+				sb.WriteString("-----")
 				continue
 			}
-			sb.WriteByte(readVerdict(&faultReaderAt{data, k}))
-			sb.WriteByte(readVerdict(&faultStream{data: data, k: k}))
+			if k >= lastEnd {
+				sb.WriteByte('-')
+			} else {
+				sb.WriteByte(readVerdict(&faultReaderAt{data, k}))
+			}
+			for _, end := range []string{"", "ueof", "nerr", "nueof"} {
+				sb.WriteByte(readVerdict(&faultStream{data: data, k: k, end: end}))
+			}
 		}
 		return sb.String()
 	}
@@ -1039,6 +1115,11 @@ func fileCases(c *Ctx, fspec string, data []byte) {
 	c.Stat("file_bytes", bucket(total))
 	c.Stat("tables_per_file", bucket(len(ents)))
 	c.Stat("trailing_padding", fmt.Sprint(total-lastEnd))
+	trailingEmpty := 0
+	for i := len(ents) - 1; i >= 0 && ents[i].len == 0; i-- {
+		trailingEmpty++
+	}
+	c.Stat("trailing_empty_tables", fmt.Sprint(trailingEmpty))
 	hdr := hx(data[:hdrLen])
 	for _, ks := range blocks(0, total) {
 		for _, mode := range []string{"trunc", "fault"} {
@@ -1050,17 +1131,21 @@ func fileCases(c *Ctx, fspec string, data []byte) {
 		countVerdicts(c, "sfnt.Read_truncated", out)
 		var a int
 		fmt.Sscan(ks, &a)
-		if i := strings.IndexAny(out, "AP"); i >= 0 && len(out) <= 2*faultBlock {
-			c.Case(Direct, "faults.trunc", fmt.Sprintf("font=%s lastend=%d len=%d ks=%d", fspec, lastEnd, total, a+i/2), true)
+		if i := strings.IndexAny(out, "AP"); i >= 0 && len(out) <= 3*faultBlock {
+			c.Case(Direct, "faults.trunc", fmt.Sprintf("font=%s lastend=%d len=%d ks=%d", fspec, lastEnd, total, a+i/3), true)
 		}
 		out = c.Case(Direct, "faults.reader", args, true)
 		countVerdicts(c, "sfnt.Read_failing_source", out)
-		if i := strings.IndexAny(out, "AP"); i >= 0 && len(out) <= 2*faultBlock {
-			c.Case(Direct, "faults.reader", fmt.Sprintf("font=%s lastend=%d len=%d ks=%d", fspec, lastEnd, total, a+i/2), true)
+		if i := strings.IndexAny(out, "AP"); i >= 0 && len(out) <= 5*faultBlock {
+			c.Case(Direct, "faults.reader", fmt.Sprintf("font=%s lastend=%d len=%d ks=%d", fspec, lastEnd, total, a+i/5), true)
 		}
 	}
 	c.Stat("fault_points", "file:"+bucket(total))
-	out := c.Case(Diagnostic, "faults.tail", fmt.Sprintf("font=%s len=%d ks=%d-%d", fspec, total, lastEnd, total), true)
+	probe := 0 // header.Read probes the last byte of the last allocation, empty tables included
+	for _, e := range ents {
+		probe = max(probe, e.off+e.len)
+	}
+	out := c.Case(Diagnostic, "faults.tail", fmt.Sprintf("font=%s len=%d probe=%d ks=%d-%d", fspec, total, probe, lastEnd, total), true)
 	countVerdicts(c, "tail_padding_points", out)
 }
 
@@ -1154,6 +1239,11 @@ func synthCases(c *Ctx, i int) {
 		tabs[t] = make([]byte, l)
 	}
 	switch i % 7 {
+	case 6, 1:
+		tabs["zzzy"] = []byte{} // empty tables laid out last
+		if i%2 == 0 {
+			tabs["zzzz"] = []byte{}
+		}
 	case 3:
 		tabs[faultTag(r)] = nil // not written
 	case 4:
@@ -1253,6 +1343,21 @@ func areaFaults(c *Ctx) {
 		func() { synthCases(c, 1) },
 		func() { fontCases(c, "simple", []string{"Write", "CFFPDF"}, c.Tier == "thorough") },
 		func() { synthCases(c, 2) },
+		// files whose last table(s) by offset are empty, and one with padding after the last table
+		func() {
+			base := fmt.Sprintf("sub:%d:%d:go:goregular|Write", r.Range(3, 8), seed())
+			c.Stat("outlines", "glyf")
+			for _, m := range []string{"x,44534947.0", "x,7a7a7a7a." + fmt.Sprint(Pick(r, []int{1, 2, 3, 5, 6, 7}))} {
+				fspec := "retab(" + m + ")" + base
+				fileCases(c, fspec, getFile(fspec))
+			}
+		},
+		func() {
+			base := fmt.Sprintf("sub:%d:%d:simple|Write", r.Range(2, 5), seed())
+			c.Stat("outlines", "CFF")
+			fspec := "retab(x,44534947.0,7a7a7a7a.0)" + base
+			fileCases(c, fspec, getFile(fspec))
+		},
 	)
 	if c.Tier == "thorough" {
 		raws := []string{"goregular", "gomono", "gosmallcaps"}
